@@ -37,6 +37,12 @@ var depthCases = []depthCase{
 	{"handled by the program body itself, a second program-level statement would not run",
 		"令甲 = 5\n" + endless + "（无尽：1）\n输出“到不了”\n拦截异常：\n    输出“已拦截”",
 		"已拦截"},
+	{"a handler whose class is a number stands before the matching one: it matches nothing, the exception goes on to the next handler",
+		"令A = 1 / 0\n拦截100：\n    输出 5\n拦截异常：\n    输出 6",
+		"6"},
+	{"a handler whose class is a number is the only one, inside a method: the exception reaches the caller's handler unchanged",
+		"如何试？\n    输出 1 / 0\n    拦截3.5：\n        输出 5\n令果 = （试）\n输出“到不了”\n拦截异常：\n    输出其内容",
+		"被除数不得为0"},
 	{"not handled at all: the program ends with the fault",
 		endless + "（无尽：1）\n输出“到不了”",
 		"error"},
@@ -75,5 +81,5 @@ func TestDepthFault(t *testing.T) {
 	for _, c := range depthCases {
 		h.R.Case(t, "depth", c.Name, c, []string{"call-depth-fault"}, c.Want != "error", checkDepth(c))
 	}
-	h.R.Exhaustive("depth", fmt.Sprintf("%d programs that recurse to the interpreter's own call-depth bound", len(depthCases)))
+	h.R.Exhaustive("depth", fmt.Sprintf("%d listed programs (recursion to the interpreter's own call-depth bound; handlers whose class is not a name)", len(depthCases)))
 }
